@@ -154,6 +154,43 @@ def _interp_log(P, x):
     return math.exp(lb + 0.5 * t * (lc - la) + 0.5 * t * t * (la - 2 * lb + lc))
 
 
+def shape_checks(mon, rec, cfg, i, H, base, W, cen, edges, info, tag):
+    """peak position / unit gain / ERB / 3 dB statements on magnitudes H whose element j is DFT bin base + j of W"""
+    name = cfg["name"]
+    rate = cfg["sampling_rate"]
+    l2 = bool(cfg.get("scale_l2_norm"))
+    bw = edges[i + 1] - edges[i]
+    k = int(np.argmax(H))
+    if 1 <= k < len(H) - 1:
+        off, lpk = _qfit_peak(np.log(H), k)
+        pos = (base + k + off) * rate / W
+        if abs(pos - cen[i]) > 0.5 * rate / W + 1e-9 * rate:
+            mon.v("%s filter %d peaks at %.4f Hz, centre is %.4f Hz (bin %.3g Hz)%s" % (name, i, pos, cen[i], rate / W, tag), check="peak_position", W=W, **info)
+        if not l2:
+            rec.count("unit_gain_checks")
+            if abs(math.exp(lpk) - 1.0) > 2e-3:
+                mon.v("%s filter %d peak gain %.6f, documented 1%s" % (name, i, math.exp(lpk), tag), check="gain", W=W, **info)
+    else:
+        mon.v("%s filter %d: maximum of the response lies on the border of its advertised frequency support%s" % (name, i, tag), check="peak_position", W=W, **info)
+    P = H ** 2 / H.max() ** 2
+    if cfg.get("erb") and tag:
+        rec.count("erb_not_checked_on_half_period_slice")  # the slice [0, Nyquist] cuts the tails the integral needs
+    elif cfg.get("erb"):
+        ratio = float(P.sum()) * rate / W / bw
+        tol = 0.08 if (name == "gammatone" and cfg.get("order") == 1) else 0.015
+        rec.count("erb_checks")
+        if not abs(ratio - 1.0) <= tol:
+            mon.v("%s filter %d (erb) equivalent rectangular bandwidth is %.4f x its edge spacing%s" % (name, i, ratio, tag), check="erb", W=W, **info)
+    else:
+        for edge in (edges[i], edges[i + 1]):
+            x = edge * W / rate - base
+            if 1 <= x < len(P) - 2:
+                val = _interp_log(P, x)
+                rec.count("three_db_checks")
+                if not abs(val - 0.5) <= 0.01:
+                    mon.v("%s filter %d: |H|^2 at its edge %.3f Hz is %.4f of the peak, documented 3 dB (0.5)%s" % (name, i, edge, val, tag), check="3dB", W=W, **info)
+
+
 def probe(mon, rec, cfg, bank, i, rng):
     name = cfg["name"]
     rate = cfg["sampling_rate"]
@@ -217,32 +254,21 @@ def probe(mon, rec, cfg, bank, i, rng):
     k = int(np.argmax(H))
     # absolute bin index of buffer position j is b0 + j (modulo W); undo the modulo with the centre as a guide
     base = b0 if abs((b0 + k) * rate / W - cen[i]) <= rate / 2 else b0 - W
-    if 1 <= k < len(H) - 1:
-        off, lpk = _qfit_peak(np.log(H), k)
-        pos = (base + k + off) * rate / W
-        if abs(pos - cen[i]) > 0.5 * rate / W + 1e-9 * rate:
-            mon.v("%s filter %d peaks at %.4f Hz, centre is %.4f Hz (bin %.3g Hz)" % (name, i, pos, cen[i], rate / W), check="peak_position", W=W, **info)
-        if not l2:
-            rec.count("unit_gain_checks")
-            if abs(math.exp(lpk) - 1.0) > 2e-3:
-                mon.v("%s filter %d peak gain %.6f, documented 1" % (name, i, math.exp(lpk)), check="gain", W=W, **info)
-    else:
-        mon.v("%s filter %d: maximum of the response lies on the border of its advertised frequency support" % (name, i), check="peak_position", W=W, **info)
-    P = H ** 2 / H.max() ** 2
-    if cfg.get("erb"):
-        ratio = float(P.sum()) * rate / W / bw
-        tol = 0.08 if (name == "gammatone" and cfg.get("order") == 1) else 0.015
-        rec.count("erb_checks")
-        if not abs(ratio - 1.0) <= tol:
-            mon.v("%s filter %d (erb) equivalent rectangular bandwidth is %.4f x its edge spacing" % (name, i, ratio), check="erb", W=W, **info)
-    else:
-        for edge in (edges[i], edges[i + 1]):
-            x = edge * W / rate - base
-            if 1 <= x < len(P) - 2:
-                val = _interp_log(P, x)
-                rec.count("three_db_checks")
-                if not abs(val - 0.5) <= 0.01:
-                    mon.v("%s filter %d: |H|^2 at its edge %.3f Hz is %.4f of the peak, documented 3 dB (0.5)" % (name, i, edge, val), check="3dB", W=W, **info)
+    shape_checks(mon, rec, cfg, i, H, base, W, cen, edges, info, "")
+    # the same statements on get_frequency_response itself (full and half=True, odd and even widths) where the
+    # bandwidth is wide enough for a directly computed response to resolve it
+    W2 = int(64 * rate / bw)
+    if W2 <= 4096 and 0 < cen[i] < rate / 2:
+        W2 += int(rng.integers(0, 2))
+        half = bool(rng.integers(0, 2))
+        H2 = np.abs(np.asarray(bank.get_frequency_response(i, W2, half=half)))
+        rec.ev()
+        rec.count("direct_response_probes_%s_%s_width" % ("half" if half else "full", "odd" if W2 % 2 else "even"))
+        want_len = (W2 // 2 + 1 if W2 % 2 == 0 else (W2 + 1) // 2) if half else W2
+        if H2.shape != (want_len,):
+            mon.v("%s filter %d: get_frequency_response(width=%d, half=%r) has shape %r, documented (%d,)" % (name, i, W2, half, H2.shape, want_len), check="response_shape", W=W2, **info)
+        elif np.all(np.isfinite(H2)) and H2.max() > 0:
+            shape_checks(mon, rec, cfg, i, H2[: W2 // 2 + 1], 0, W2, cen, edges, info, " (get_frequency_response width %d half=%r)" % (W2, half))
 
 
 def run_case(case, rec, mon=None):
